@@ -6,7 +6,7 @@
 (* The model describes the code after the fix: commits listed in known_findings.json *)
 (* (lexists guards, guard re-checked after mkdir -p, backlog remembers the input     *)
 (* directory, dry-run keys absolute, component-wise containment, the directory of   *)
-(* the destination entry tested too (F34)); the pre-fix variants are selected by the *)
+(* the destination entry tested too (F34), deferred renames tested again before they are retried (F38)); the pre-fix variants are selected by the *)
 (* [variant] record and used only for refutations.                                   *)
 From Tempren Require Import Base.Str Py.PathLib FS.Model.
 Open Scope N_scope.
@@ -57,15 +57,20 @@ Record variant := {
   v_backlog_chdir : bool;      (* deferred renames are retried in their own input directory   *)
   v_dry_abs_keys : bool;       (* DryRunRenamer keys its sets by absolute path, uses lexists  *)
   v_component_containment : bool; (* is_relative_to instead of str.startswith                 *)
-  v_dest_parent_containment : bool (* the directory of the destination entry must lie inside too (F34) *)
+  v_dest_parent_containment : bool; (* the directory of the destination entry must lie inside too (F34) *)
+  v_backlog_recheck : bool     (* deferred renames are tested for containment again before they are retried (F38) *)
 }.
 Definition fixed : variant := {| v_lexists_guard := true; v_recheck_after_mkdir := true;
   v_backlog_chdir := true; v_dry_abs_keys := true; v_component_containment := true;
-  v_dest_parent_containment := true |}.
+  v_dest_parent_containment := true; v_backlog_recheck := true |}.
+(* the code before the repair of F38: a deferred rename is retried without running the containment tests again *)
+Definition pre_f38 : variant := {| v_lexists_guard := true; v_recheck_after_mkdir := true;
+  v_backlog_chdir := true; v_dry_abs_keys := true; v_component_containment := true;
+  v_dest_parent_containment := true; v_backlog_recheck := false |}.
 (* the code before the repair of F34: the destination entry's own directory is not tested *)
 Definition pre_f34 : variant := {| v_lexists_guard := true; v_recheck_after_mkdir := true;
   v_backlog_chdir := true; v_dry_abs_keys := true; v_component_containment := true;
-  v_dest_parent_containment := false |}.
+  v_dest_parent_containment := false; v_backlog_recheck := false |}.
 
 Record cfg := {
   c_mode : mode;
@@ -471,6 +476,35 @@ Fixpoint first_pass (c : cfg) (plan : list (pfile * rendered)) (w : world) (cwd 
     end
   end.
 
+(* Pipeline._verify_destination: the four containment tests of the first pass as one verdict
+   (None = all said yes; the tests do not change the world) *)
+Definition verify_destination (v : variant) (s : fs) (f : pfile) (np : ppath) : option exn :=
+  match contained v s f np with
+  | None => Some ExOther
+  | Some false => Some ExInvalidDest
+  | Some true =>
+    match dest_parent_test v s f np with
+    | None => Some ExOther
+    | Some false => Some ExInvalidDest
+    | Some true =>
+      match parents_contained s f np with
+      | None => Some ExOther
+      | Some false => Some ExInvalidDest
+      | Some true =>
+        match source_contained s f with
+        | None => Some ExOther
+        | Some false => Some ExInvalidDest
+        | Some true => None
+        end
+      end
+    end
+  end.
+
+(* the same tests on a deferred entry, on the filesystem as it is when the entry is retried (F38);
+   absent before the repair *)
+Definition backlog_verify (v : variant) (s : fs) (d : rpath) (src dst : ppath) : option exn :=
+  if v_backlog_recheck v then verify_destination v s {| pf_dir := d; pf_rel := src |} dst else None.
+
 (* [backlog] newest first = the order in which list.pop() takes them *)
 Fixpoint second_pass (c : cfg) (backlog : list backlog_entry) (w : world) (cwd : rpath)
   : world * rpath * option exn :=
@@ -480,6 +514,9 @@ Fixpoint second_pass (c : cfg) (backlog : list backlog_entry) (w : world) (cwd :
     match (if v_backlog_chdir (c_var c) then chdir (w_fs w) d else Some cwd) with
     | None => (w, cwd, Some ExOther)
     | Some cwd1 =>
+      match backlog_verify (c_var c) (w_fs w) d src dst with
+      | Some e => (w, cwd1, Some e)
+      | None =>
       match renamer c w cwd1 src dst false with
       | (w1, None) => second_pass c rest w1 cwd1
       | (w1, Some e) =>
@@ -489,6 +526,7 @@ Fixpoint second_pass (c : cfg) (backlog : list backlog_entry) (w : world) (cwd :
           | (w2, Some e2) => (w2, cwd1, Some e2)
           end
         else (w1, cwd1, Some e)
+      end
       end
     end
   end.
